@@ -66,11 +66,16 @@ def run_sender(sc):
         def parked():
             return writer.state == 'dead' or (writer.state == 'parked' and writer.pending[0] == 'get' and not q.items)
 
+        fires = [0]
+
         def advance(t):
             while True:
                 w = q.waiter
                 if writer.state != 'dead' and w is not None and w['timeout'] is not None and not w['fired'] \
-                        and Fraction(w['start']) + Fraction(w['timeout']) < t:
+                        and Fraction(w['start']) + Fraction(w['timeout']) < t and fires[0] < 6000:
+                    # (a script is generated to produce at most ~2500 timeouts; far more means the interval in use is not the one
+                    #  expected: firing stops and the model comparison reports the delay the model cannot accept)
+                    fires[0] += 1
                     dl = Fraction(w['start']) + Fraction(w['timeout'])
                     labels.append([sym('delay'), Q(dl - Fraction(clock.now))])
                     labels.append(sym('fire'))
@@ -329,7 +334,7 @@ def run(ctx, res):
         if res.evaluations % 60 == 0:
             res.sample({'k0': sc.k0, 'events': case['events'][:8], 'writes': [(str(t), d.decode()) for t, d in writes[:8]]})
     # interval change at init through the real server
-    grid = [(None, None), (None, 500), (None, 1500), (None, 20000), (10, 3000), (2, 5000), (0, 1500), (0, 400), (-1, 2000), (0.5, 300), (3, None), (0, None)]
+    grid = [(None, None), (None, 500), (None, 1500), (None, 20000), (10, 3000), (10, 2250), (2, 5000), (0, 1500), (0, 400), (-1, 2000), (0.5, 300), (3, None), (0, None)]
     for k0, hint in grid:
         writes, ka = run_server(k0, hint, 2, 40)
         res.evaluations += 1
@@ -340,6 +345,12 @@ def run(ctx, res):
             res.oracle_violations.append({'case': case, 'detail': 'no init reply', 'key': {'kind': 'no_reply'}})
             continue
         after = [t for t, d in writes if t > t_reply[0]]
+        # the interval that has to be in force is the one the negotiation of C12 prescribes for (configured, hint),
+        # not merely the one the server reports
+        from props import c12
+        msg = c12.oracle(k0, hint, ka)
+        if msg:
+            res.oracle_violations.append({'case': case, 'detail': 'interval in force after init: ' + msg, 'key': {'kind': 'interval_in_force'}})
         K = Fraction(ka).limit_denominator(10 ** 9)
         prev = t_reply[0]
         bad = None
